@@ -6,7 +6,7 @@
 (* fragments, unattached subtrees; elements with namespace and attribute   *)
 (* nodes; text, comment leaves).                                           *)
 (***************************************************************************)
-EXTENDS MCForest, XotTree
+EXTENDS MCForest, XotSerial
 
 LawsHold == \A x \in Live(F.n) : LawsAt(F.n, x)
 
@@ -53,4 +53,16 @@ EqualityLaws ==
         /\ DeepEqual(F.n, x, y) = DeepEqual(F.n, y, x)
         /\ DeepEqual(F.n, x, y) => AdvancedDeepEqual(F.n, x, y, "nocomment", "exact") /\ DeepEqualXPath(F.n, x, y, "exact")
         /\ DeepEqual(F.n, x, y) => (ShallowEqualIgnoring(F.n, x, y, {}) /\ (StringValue(F.n, x) = StringValue(F.n, y) \/ F.n[x].k = "nsn"))
+
+\* output events (C16): one start event per node in document order; elements bracket their content
+EventLaws ==
+    \A x \in {z \in Live(F.n) : IsNormal(F.n, z)} :
+        LET ev == Events(F.n, x)
+            starts == SelectSeq(ev, LAMBDA q : q.k \in {"sto", "text", "comm", "pi"})
+        IN /\ [j \in 1..Len(starts) |-> starts[j].n] = SelectSeq(Descendants(F.n, x), LAMBDA z : F.n[z].k # "doc")
+           /\ \A z \in {y \in SeqRange(Descendants(F.n, x)) : F.n[y].k = "elem"} :
+                 LET mine == SelectSeq(ev, LAMBDA q : q.n = z) IN
+                 /\ mine[1].k = "sto" /\ mine[Len(mine)].k = "et"
+                 /\ Len(SelectSeq(mine, LAMBDA q : q.k = "pfx")) = Len(NsKids(F.n, z))
+                 /\ Len(SelectSeq(mine, LAMBDA q : q.k = "attr")) = Len(AttrKids(F.n, z))
 =============================================================================
